@@ -35,10 +35,14 @@ class ClearkeyHandler(RequestHandlerBase):
             return str(binascii.b2a_hex(data), 'ascii')
         result = {"error": None}
         req = flask.request.json
+        if not isinstance(req, dict):
+            return jsonify('a JSON object is required', 400)
         try:
             kids = req["kids"]
         except KeyError:
             return jsonify('kids property missing', 400)
+        if not isinstance(kids, list) or not all(isinstance(k, str) for k in kids):
+            return jsonify('kids must be a list of strings', 400)
         try:
             kids = list(map(self.base64url_decode, kids))
             kids = [to_hex(k) for k in kids]
